@@ -3,7 +3,7 @@ import ast
 import re
 
 from ..pycfg import CFG, walk_no_nested
-from ..source import conjuncts, atoms, atom_key, truth, side, linear, guard_walk, is_guard, AnalysisError, find_function, first_line, src, functions
+from ..source import expand_flags, inline_temporaries, conjuncts, atoms, atom_key, truth, side, linear, guard_walk, is_guard, AnalysisError, find_function, first_line, src, functions
 
 SM = "nemoguardrails/colang/v2_x/runtime/statemachine.py"
 EVAL = "nemoguardrails/colang/v2_x/runtime/eval.py"
@@ -57,7 +57,7 @@ def f_positional_by_name(ctx):
                  and src(l.iter.args[0]).endswith(".parameters") and isinstance(l.target, ast.Tuple) and len(l.target.elts) == 2
                  and any(isinstance(a, ast.Assign) and isinstance(a.targets[0], ast.Subscript) and src(a.targets[0].value) == argv
                          and src(a.targets[0].slice) == "%s.name" % src(l.target.elts[1])
-                         and any(isinstance(j, ast.JoinedStr) and "$" in src(j) and src(l.target.elts[0]) in src(j) for j in ast.walk(a.value)) for a in ast.walk(l))]
+                         and re.search(r"f['\"]\$\{%s\}['\"]" % re.escape(src(l.target.elts[0])), inline_temporaries(a.value, fn, a.lineno)) for a in ast.walk(l))]
         lnodes = [cfg.node_of(l.iter) for l in loops]
         # last evaluation of the arguments before the call
         evals = [n for n in cfg.nodes if n.kind == "stmt" and isinstance(n.ast, ast.Assign) and src(n.ast.targets[0]) == argv and cnode in cfg.reachable([n])]
@@ -70,7 +70,7 @@ def f_positional_by_name(ctx):
                 if x in seen or x in lnodes:
                     continue
                 seen.add(x)
-                tv = truth(x.ast, facts) if x.kind == "test" and isinstance(x.ast, ast.expr) else None
+                tv = truth(expand_flags(x.ast, fn), facts) if x.kind == "test" and isinstance(x.ast, ast.expr) else None
                 stack.extend(m for m, lab in x.succ if not (tv is not None and lab in (True, False) and lab is not tv))
             if cnode in seen and not any(e2 is not e and e2 in seen for e2 in evals):
                 ok = False
